@@ -309,6 +309,15 @@ extern "C" int harness_main() {
 #ifdef LONG_OUTPUT
   g_long_output = verif_bool("commands_print_more_than_one_pipe_read");
 #endif
+#ifdef OUTPUT_BYTES
+  g_output_flavour = verif_choice("output_flavour", 3);      // plain text / ANSI colour sequences / NUL, control and high bytes
+#endif
+#ifdef CUSTOM_FORMAT
+  // the progress prefix through $NINJA_STATUS (printf-like placeholders) or --status ($variables); both spell out every counter
+  int fmt_kind = verif_choice("status_format_kind", 2);
+  if (fmt_kind == 0) setenv("NINJA_STATUS", "[%s,%f,%t,%r,%u,%p,%%] ", 1);
+  else o.status_option = "[$started,$finished,$total,$running,$remaining,$progress,%] $description";
+#endif
   verif_stdout_capture();
   InvocationResult r = invoke(o);
   VERIF_ASSERT(r.parsed && r.added, "the scenario manifest parses and the targets are known");
@@ -334,7 +343,12 @@ extern "C" int harness_main() {
   // every block of command output appears exactly once, whole, directly after the status line of its command
   for (size_t i = 0; i < g_ref.size(); i++) {
     if (g_ref[i].phony) continue; const std::string& o0 = g_ref[i].outs[0]; const RefEdge& e = g_ref[i];
-    std::string block = out_block(o0); std::string errblock = "<<err " + o0 + ">>\n";
+#ifdef SMART_TERMINAL
+    std::string block = shown_block(o0, true);
+#else
+    std::string block = shown_block(o0, false);
+#endif
+    std::string errblock = "<<err " + o0 + ">>\n";
     int c1 = count_occurrences(out, "<<out " + o0 + ">>"), c2 = count_occurrences(out, block), e1 = count_occurrences(out, errblock);
     VERIF_ASSERT(c1 <= 1 && c1 == c2, "C20: a command's output is shown exactly once, as one contiguous block");
     VERIF_ASSERT(e1 <= 1, "C20: a failed command's output is shown exactly once");
@@ -361,6 +375,20 @@ extern "C" int harness_main() {
   { size_t p = 0; bool counters = true; int last_f = 0, last_t = 0;
     while (p < out.size()) { size_t e = out.find('\n', p); if (e == std::string::npos) e = out.size(); std::string line = out.substr(p, e - p); p = e + 1;
       if (line.size() > 4 && line[0] == '[') { int f = 0, t = 0; size_t q = 1; while (q < line.size() && line[q] >= '0' && line[q] <= '9') f = f * 10 + (line[q++] - '0'); if (q < line.size() && line[q] == '/') { q++; while (q < line.size() && line[q] >= '0' && line[q] <= '9') t = t * 10 + (line[q++] - '0'); if (q < line.size() && line[q] == ']') { counters = counters && f <= t; last_f = f; last_t = t; } } } }
+#ifdef CUSTOM_FORMAT
+    { size_t q = 0; int lines = 0; bool consistent = true;
+      while (q < out.size()) { size_t e = out.find('\n', q); if (e == std::string::npos) e = out.size(); std::string line = out.substr(q, e - q); q = e + 1;
+        int v[6]; int k = 0; size_t i = 1; if (line.size() < 4 || line[0] != '[' || !(line[1] >= '0' && line[1] <= '9')) continue;
+        while (k < 6 && i < line.size()) { while (i < line.size() && line[i] == ' ') i++; int x = 0; bool any = false; while (i < line.size() && line[i] >= '0' && line[i] <= '9') { x = x * 10 + (line[i++] - '0'); any = true; } if (!any) break; v[k++] = x; if (i < line.size() && line[i] == '%') i++; if (i < line.size() && line[i] == ',') i++; else break; }
+        if (k < 6) { if (line.compare(0, 1, "[") == 0 && line.find(",") != std::string::npos) consistent = false; continue; }
+        lines++;
+        int st = v[0], fi = v[1], to = v[2], ru = v[3], un = v[4], pc = v[5];
+        consistent = consistent && fi <= st && st <= to && un == to - st && ru >= st - fi && ru <= st - fi + 1 && ru <= o.run.parallelism && pc == (fi && to ? 100 * fi / to : 0);
+        consistent = consistent && line.compare(i, 3, "%] ") == 0 && line.size() > i + 3; }      // the literal percent sign, the end of the prefix, then the description / command
+      VERIF_ASSERT(consistent, "C20: with a custom status format every counter on every status line is consistent (finished <= started <= total, remaining, running, percentage)");
+      if (lines) verif_reach(fmt_kind == 0 ? "ninja-status-format" : "status-option-format"); }
+    unsetenv("NINJA_STATUS");
+#endif
     VERIF_ASSERT(counters, "C20: progress counters never exceed the total");
     VERIF_ASSERT(r.status_started == r.status_finished, "C20: every started command is also reported finished");
     (void)last_f; (void)last_t;
